@@ -26,23 +26,25 @@ Definition pv (o : oracle) (b : bool) (s : str) : lres :=
   match oget s (if b then o_pval_t o else o_pval_f o) with Some r => r | None => missing s end.
 Definition ik (o : oracle) (s : str) : option Z := match oget s (o_ikey o) with Some r => r | None => None end.
 
-Inductive xty := XLeaf (name : str) | XNone | XUnion (ts : list xty) | XCont (name : str) (ts : list xty).
+Inductive xty := XLeaf (name : str) | XNone | XUnion (ts : list xty) | XCont (name : str) (ts : list xty)
+               | XSubKw (default_class : str).   (* a subclass-typed option whose declared default carries dict_kwargs *)
 
 (* a Union with two or more non-None members somewhere in the type *)
 Fixpoint multi_union (t : xty) : bool :=
   match t with
-  | XLeaf _ | XNone => false
+  | XLeaf _ | XNone | XSubKw _ => false
   | XUnion ts => Nat.ltb 1 (length (filter (fun t1 => match t1 with XNone => false | _ => true end) ts))
                  || existsb multi_union ts
   | XCont _ ts => existsb multi_union ts
   end.
 
 Definition cfg_eqb : list val -> list val -> bool := list_eqb veq.
+Definition cfg_eqb_m : list val -> list val -> bool := list_eqb veq_o.      (* the model tie also compares dict item order *)
 Definition cfg_eqb_text : list val -> list val -> bool := list_eqb (fun a b => veq (strip_meta a) (strip_meta b)).
 (* a Set[...] somewhere in the type *)
 Fixpoint has_set (t : xty) : bool :=
   match t with
-  | XLeaf _ | XNone => false
+  | XLeaf _ | XNone | XSubKw _ => false
   | XUnion ts => existsb has_set ts
   | XCont name ts => str_eqb name [115; 101; 116]%N || existsb has_set ts
   end.
@@ -52,6 +54,38 @@ Definition only_text_differs (first reparsed : outcome (list val)) (text1 text2 
   match first, text1, text2 with
   | Accepted w, Some _, Some _ => outcome_eqb cfg_eqb_text reparsed (Accepted w)
   | _, _, _ => false
+  end.
+
+(* finding dict-kwargs-default-merge (class 5): every key on which an object re-parse differs from the first parse is a
+   subclass-typed option whose default carries dict_kwargs AND whose parsed value is of the default's own class
+   (parse_string / parse_path keep the value's dict_kwargs, parse_object merges the default's into them).  A difference
+   under ANOTHER class, or on any other key, is not in this class. *)
+Definition class_path_of (w : val) : option str :=
+  match w with
+  | VDict d => (fix go (d : list (val * val)) : option str :=
+                  match d with
+                  | [] => None
+                  | (VStr k, VStr cp) :: d' => if str_eqb k [99;108;97;115;115;95;112;97;116;104]%N then Some cp else go d'
+                  | _ :: d' => go d'
+                  end) d
+  | _ => None
+  end.
+
+Fixpoint diffs_excused (sk : list xty) (w a : list val) : bool :=
+  match sk, w, a with
+  | t :: sk', x :: w', y :: a' =>
+      (veq x y || match t, class_path_of x with
+                  | XSubKw dc, Some cp => str_eqb dc cp
+                  | _, _ => false
+                  end) && diffs_excused sk' w' a'
+  | [], [], [] => true
+  | _, _, _ => false
+  end.
+
+Definition kwargs_merge_only (sk : list xty) (first : outcome (list val)) (valid : bool) (again : list (outcome (list val))) : bool :=
+  match first with
+  | Accepted w => valid && forallb (fun o => match o with Accepted a => diffs_excused sk w a | _ => false end) again
+  | _ => false
   end.
 
 Inductive case :=
@@ -69,6 +103,7 @@ Definition to_outcome (r : option (list val)) : outcome (list val) :=
    class 3 = validate and the object re-parse are fine but the dump leg is not, and the type has a Union of
              >= 2 non-None members (finding union-dump-wrong-member: serialising a Union takes the first
              member whose serialize branch does not raise, whether or not the value belongs to it);
+   class 5 = see kwargs_merge_only above (finding dict-kwargs-default-merge);
    class 4 = a Set[...] in the type, everything equal except the two dumped texts (finding set-dump-order:
              a set is dumped in hash-iteration order) *)
 Definition ns_class (p : parser) (obj : val) (o : oracle) : N :=
@@ -83,11 +118,11 @@ Definition judge1 (c : case) : verdict :=
       let parse := parse_flat (jl o) (pv o) (ik o) p in
       {| v_model :=
            nodup_keys p &&
-           outcome_eqb cfg_eqb (to_outcome (parse_obj (jl o) (pv o) (ik o) p obj)) first
+           outcome_eqb cfg_eqb_m (to_outcome (parse_obj (jl o) (pv o) (ik o) p obj)) first
            && match first with
               | Accepted w =>
                   Bool.eqb valid (validate_all (jl o) (pv o) (ik o) p w)
-                  && forallb (fun a => outcome_eqb cfg_eqb (to_outcome (parse (as_assignments p w))) a) again
+                  && forallb (fun a => outcome_eqb cfg_eqb_m (to_outcome (parse (as_assignments p w))) a) again
               | _ => true
               end;
          v_class := ns_class p obj o;
@@ -96,6 +131,7 @@ Definition judge1 (c : case) : verdict :=
       {| v_model := true;
          v_class := if existsb multi_union sk
                     then (if fixed_point_spec cfg_eqb first valid again then 3%N else 2%N)
+                    else if negb (fixed_point_spec cfg_eqb first valid again) && kwargs_merge_only sk first valid again then 5%N
                     else if existsb has_set sk && fixed_point_spec cfg_eqb first valid again
                             && only_text_differs first reparsed text1 text2 then 4%N
                     else 0%N;
